@@ -173,7 +173,7 @@ def call_site_styles(S):
     return out
 
 
-def explore(S, K, want=('C04', 'C05', 'C06')):
+def explore(S, K, want=('C04', 'C05', 'C06'), cats=None, between_items=False):
     kt = T.KT
     core = S.core
     f_new = S.find_fn(core, 'ListStylist::new')
@@ -186,7 +186,7 @@ def explore(S, K, want=('C04', 'C05', 'C06')):
     found = []
 
     def sequences(k):
-        for combo in itertools.product(KINDS, repeat=k):
+        for combo in itertools.product(cats or KINDS, repeat=k):
             ok = True
             for i, c in enumerate(combo):
                 # lexer fact: a line comment is followed (if anything follows in this node) by whitespace holding the line end
@@ -195,6 +195,8 @@ def explore(S, K, want=('C04', 'C05', 'C06')):
                 # two adjacent whitespace tokens do not exist
                 if c == 'space' and i + 1 < k and combo[i + 1] == 'space':
                     ok = False
+            if between_items and (k < 2 or combo[0] != 'item' or combo[-1] != 'item'):
+                ok = False
             if ok:
                 yield combo
 
@@ -331,6 +333,14 @@ def explore(S, K, want=('C04', 'C05', 'C06')):
                                   lambda mdl, mode=mode, at=at: dict(describe(mdl), mode=mode, atoms=show_atoms(at)))
                     ctx.must_hold(has_open or not has_nl, 'C04:delimiters-omitted-on-multi-line-list',
                                   lambda mdl, mode=mode, at=at: dict(describe(mdl), mode=mode, atoms=show_atoms(at)))
+                if 'C03' in want and not any(a == ('nl',) for a in at):
+                    # a list laid out on one line must already be in its final form: no doubled blank, no blank before a separator
+                    dbl = False
+                    for a, b in zip(at, at[1:]):
+                        if a[0] == 't' and b[0] == 't' and a[1].is_concrete() and b[1].is_concrete() and a[1].concrete() == ' ' and b[1].concrete() in (' ', ','):
+                            dbl = True
+                    ctx.must_hold(not dbl, 'C03:one-line-list-layout-is-not-a-fixed-point',
+                                  lambda mdl, mode=mode, at=at: dict(describe(mdl), mode=mode, atoms=show_atoms(at)))
                 if 'C06' in want:
                     ctx.must_hold(seq == expected, 'C06:list-comments-or-items-not-conserved',
                                   lambda mdl, mode=mode, at=at: dict(describe(mdl), mode=mode, atoms=show_atoms(at)))
@@ -435,9 +445,37 @@ def native_sweep(S, prop, all_hits=False, nl='\n'):
     return hits if all_hits else None
 
 
+IDEM_CORPUS = ['#f(a, b,\n\n c)\n', '#f(a,\n\n\n b)\n', '#(a, b,\n\n c)\n', '#let f(a, b,\n\n c) = 1\n', '#(k: 1, j: 2,\n\n l: 3)\n',
+               '#let (a, b,\n\n c) = x\n', '#{a; b\n\n c}\n', '#import "m.typ": a, b,\n\n c\n', '$ f(a, b,\n\n c) $\n']
+
+
+def native_idempotence(S):
+    for src in IDEM_CORPUS:
+        if S.driver.call('erroneous', hexs(src))[1] == '1':
+            continue
+        for w in (80, 20):
+            a = S.driver.call('format', hexs(src), w, 2, 0)
+            if a[0] != 'ok':
+                continue
+            b = S.driver.call('format', a[1], w, 2, 0)
+            if b[0] != 'ok' or b[1] != a[1]:
+                return dict(api='format(format(x))', source=src, width=w, first=unhexs(a[1]), second=unhexs(b[1]) if b[0] == 'ok' else b[0],
+                            what='format is not idempotent on %s (width %d): %s then %s' % (show(src), w, show(unhexs(a[1])), show(unhexs(b[1]) if b[0] == 'ok' else b[0])))
+    return None
+
+
 def report(S, prop, found):
     labs = sorted({lab for lab, info in found if lab.startswith(prop + ':')})
     if not labs:
+        return
+    if prop == 'C03':
+        w = native_idempotence(S)
+        for lab in labs:
+            info = [i for l, i in found if l == lab][0]
+            if w:
+                S.violation(lab, '%s: %s' % (lab, w['what']), dict(api=w, model=info))
+            else:
+                S.inconclusive.append('%s: the solver model (%r) has no reproduction in the native corpus' % (lab, info))
         return
     hits = native_sweep(S, prop, all_hits=True)
     for lab in labs:
